@@ -292,7 +292,28 @@ class MPool:
             op = c.ops[c.idx]
             pk = op.peak()
             if self.ar.gt(pk, c.ram):
-                raise Discard("forced tick of an operator whose peak exceeds the allocation")
+                # memory of the forced tick may be anything in [0, peak]: whether that exceeds the allocation is
+                # not determined by the documentation - follow the implementation's outcome
+                killed = obs.was_killed(c, self)
+                if killed is None:
+                    raise Discard("forced tick of an operator whose peak exceeds the allocation")
+                self.ar.banded += 1
+                self.probe("zero_tick_operator")
+                if killed:
+                    c.mem = pk
+                    c.last_demand = pk
+                    c.frozen = True
+                    return
+                seen = obs.forced_mem(c)
+                if seen is not None and seen > c.ram * (1 + BAND):
+                    raise Violation("C04.container_over", {"container": c.label, "use": float(seen), "alloc": float(c.ram)})
+                m = seen if seen is not None else F(0)
+                c.mem = m
+                c.last_demand = m
+                c.can_suspend = False
+                c.pos += 1
+                self._advance(c)
+                return
             seen = obs.forced_mem(c)
             if seen is None:
                 seen = pk
@@ -307,6 +328,9 @@ class MPool:
             return
         c.can_suspend = False
         c.pos += 1
+        self._advance(c)
+
+    def _advance(self, c):
         if c.pos == len(c.plan):
             c.ops[c.idx].state = C
             c.idx += 1
@@ -408,6 +432,9 @@ class NoObs:
         return None
 
     def suspend_ticks(self, c):
+        return None
+
+    def was_killed(self, c, pool):
         return None
 
     def pool_victims(self, pool):
